@@ -595,6 +595,30 @@ def witnesses(ctx):
     case["named"] = {}
     check_case(ctx, case, [], random.Random(1))
     ctx.cell("pinned-witnesses")
+    # shapes of two repaired defects the generator reaches only in the thorough tier: a union whose only member is an
+    # anonymous structure holding another anonymous structure (its fields were dumped as zeros), and a structure
+    # three unions deep (could not be loaded)
+    for endian in "<>":
+        ctx.evaluation(("nested-shapes", endian))
+        det = {"endian": endian, "workload": "nested-shapes"}
+        try:
+            cs = lib.load("union U { struct { struct { uint8 a; uint8 b; }; uint8 c; }; };\n"
+                          "struct S { uint8 x; uint16 y; };\nunion A { S s; uint8 r[3]; };\nunion B { A a; uint8 q; };\n"
+                          "union C { B b; uint32 w; };\nstruct H { uint8 h; C c; uint8 t; };", endian, False, False)
+            u = cs.U(b"\x01\x02\x03")
+            h = cs.H(bytes([9, 1, 2, 3, 4, 7]))
+            facts = (u.dumps(), (int(u.a), int(u.b), int(u.c)), h.dumps(), int(h.c.b.a.s.x), [int(v) for v in h.c.b.a.r], len(cs.C))
+            want = (b"\x01\x02\x03", (1, 2, 3), bytes([9, 1, 2, 3, 4, 7]), 1, [1, 2, 3], 4)
+            h.c.b.a.s.x = 0x55
+            facts += (h.dumps(), int(h.c.b.q))
+            want += (bytes([9, 0x55, 2, 3, 4, 7]), 0x55)
+        except Exception as e:  # noqa: BLE001
+            ctx.violation("nested-shapes", f"nested-union-shape-raises:{type(e).__name__}", dict(det, error=lib.exc_sig(e)))
+            continue
+        if facts != want:
+            ctx.violation("nested-shapes", "nested-union-shape-differs", dict(det, got=repr(facts), want=repr(want)))
+        else:
+            ctx.event("nested_shapes_checked")
 
 
 def held_reference(ctx):
@@ -776,6 +800,9 @@ def run(ctx):
 def replay(ctx, detail):
     if detail.get("workload") == "held-reference":
         held_reference(ctx)
+        return
+    if detail.get("workload") == "nested-shapes":
+        witnesses(ctx)
         return
     if detail.get("workload") == "defaults-and-falsy":
         defaults_and_falsy_values(ctx)
